@@ -307,7 +307,9 @@ func ExtractAcraBlockFromData(data []byte) (int, AcraBlock, error) {
 		validMask <<= 1
 	}
 	restLength := binary.LittleEndian.Uint64(data[RestAcraBlockLengthPosition : RestAcraBlockLengthPosition+RestAcraBlockLengthSize])
-	if len(data) >= int(restLength+TagBeginSize) {
+	// restLength comes from untrusted data: it must cover at least the fixed header and must not
+	// exceed what is actually present (compare without adding, so that huge values cannot wrap)
+	if restLength >= AcraBlockMinSize-TagBeginSize && restLength <= uint64(len(data)-TagBeginSize) {
 		validMask <<= 1
 	}
 	_, ok := keyEncryptionBackendTypeMap[KeyEncryptionBackendType(data[KeyEncryptionKeyTypePosition])]
@@ -322,7 +324,12 @@ func ExtractAcraBlockFromData(data []byte) (int, AcraBlock, error) {
 		return 0, nil, ErrInvalidAcraBlock
 	}
 	length := TagBeginSize + restLength
-	return int(length), AcraBlock(data[:length]), nil
+	block := AcraBlock(data[:length])
+	// the encrypted data encryption key must fit into the block
+	if AcraBlockMinSize+block.EncryptedDataEncryptionKeyLength() > len(block) {
+		return 0, nil, ErrInvalidAcraBlock
+	}
+	return int(length), block, nil
 
 }
 
